@@ -275,3 +275,87 @@ def gen_full(rng):
             f"open 2 0 0 {hx(b'refill')} 2", f"write 2 {1800 * dbs} 5", "close 2", "free 0 0"]
     ops += epilogue()
     return ops
+
+def file_blocks(size, dbs):
+    nd = (size + dbs - 1) // dbs
+    ne = 0 if nd <= 72 else (nd - 72 + 71) // 72
+    return 1 + nd + ne
+
+def filler_size_for(blocks, dbs):
+    """largest file size (multiple of dbs) that occupies exactly `blocks` blocks (header+data+ext), or the closest below"""
+    nd = blocks
+    while nd > 0 and file_blocks(nd * dbs, dbs) > blocks: nd -= 1
+    return nd * dbs
+
+def gen_extfull(rng):
+    """exhaustion exactly at an extension-block boundary: a file with k*72 data blocks, the volume filled so that
+    exactly r blocks stay free, then the file is extended (needs an extension block AND a data block)"""
+    dostype = rng.randrange(6)
+    dbs = 512 if dostype & 1 else 488
+    ops = prologue(dostype, clock=(2011, 1, 2, 3, 4, 5))
+    free0 = 1756 - (1 if dostype & 4 else 0)
+    k = rng.choice([1, 1, 2])
+    r = rng.choice([0, 1, 1, 1, 2, 3])
+    asize = k * 72 * dbs
+    ops += [f"open 1 0 0 {hx(b'edge')} 2", f"write 1 {asize} 3", "close 1"]
+    used_a = file_blocks(asize, dbs)
+    fill_blocks = free0 - used_a - r
+    fsize = filler_size_for(fill_blocks, dbs)
+    ops += [f"open 2 0 0 {hx(b'filler')} 2", f"write 2 {fsize} 5", "close 2", "free 0 0"]
+    # top up with one-block files when the filler formula left a gap
+    gap = fill_blocks - file_blocks(fsize, dbs)
+    for i in range(max(0, gap)):
+        ops += [f"open 3 0 0 {hx(b'g%d' % i)} 2", "close 3"]
+    ops.append("free 0 0")
+    h = 4
+    ops.append(f"open {h} 0 0 {hx(b'edge')} 3")
+    ops.append(f"seek {h} {asize}")
+    for _ in range(rng.randint(1, 3)):
+        c = rng.random()
+        if c < 0.5: ops.append(f"write {h} {rng.choice([1, dbs, dbs + 1, 3 * dbs])} 7")
+        elif c < 0.8: ops.append(f"trunc {h} {asize + rng.choice([1, dbs, 2 * dbs])}")
+        else: ops.append(f"flush {h}")
+        ops.append("free 0 0")
+    ops += [f"close {h}", "free 0 0", f"open 1 0 0 {hx(b'edge')} 1", f"read 1 {asize + 4 * dbs}", "close 1"]
+    ops += [f"mkdir 0 0 {hx(b'dd')}", "free 0 0", f"remove 0 0 {hx(b'filler')}", "free 0 0",
+            f"remove 0 0 {hx(b'edge')}", "free 0 0", "list 0 0 0"]
+    ops += epilogue()
+    ops += ["opendev 0 1", "mount 0 0 1", "free 0 0", "list 0 0 0"] + epilogue()
+    return ops
+
+def gen_extbound(rng):
+    """extension-block boundaries of one handle: grow past k*72 blocks, truncate to exactly / around k*72 blocks on the
+    same handle, let another file allocate blocks before the handle is flushed, write again, read back"""
+    dostype = rng.randrange(6)
+    dbs = 512 if dostype & 1 else 488
+    ops = prologue(dostype, kind=rng.choice(["dd", "hd"]), clock=(2012, 2, 3, 4, 5, 6))
+    around = lambda k: k * 72 * dbs + rng.choice([-dbs, -1, 0, 0, 0, 1, dbs])
+    big = rng.choice([73, 80, 100, 145, 150]) * dbs + rng.choice([0, 1, 17])
+    ops += [f"open 1 0 0 {hx(b'big')} 3", f"write 1 {big} 11"]
+    if rng.random() < 0.3: ops.append("flush 1")
+    if rng.random() < 0.3: ops.append(f"seek 1 {rng.choice([0, 5, 72 * dbs, big])}")
+    for step in range(rng.randint(1, 4)):
+        c = rng.random()
+        if c < 0.45:
+            ops.append(f"trunc 1 {max(0, around(rng.choice([1, 1, 2])))}")
+        elif c < 0.6:
+            ops.append(f"write 1 {rng.choice([1, dbs, 5 * dbs, 80 * dbs])} {step}")
+        elif c < 0.7:
+            ops.append(f"seek 1 {max(0, around(rng.choice([1, 2])))}")
+        elif c < 0.8:
+            ops.append(f"read 1 {rng.choice([1, dbs, 3 * dbs])}")
+        else:
+            ops.append("stat 1")
+        # a bystander allocates (and keeps) blocks while handle 1 is still open
+        if rng.random() < 0.7:
+            nm = b"by%d" % step
+            ops += [f"open 2 0 0 {hx(nm)} 2", f"write 2 {rng.choice([dbs, 3 * dbs, 10 * dbs])} {50 + step}", "close 2"]
+    ops += ["close 1"]
+    for nm in [b"big"] + [b"by%d" % i for i in range(4)]:
+        ops += [f"open 3 0 0 {hx(nm)} 1", "read 3 200000", "close 3"]
+    ops += ["free 0 0", "list 0 0 0"] + epilogue()
+    ops += ["opendev 0 1", "mount 0 0 1"]
+    for nm in [b"big"] + [b"by%d" % i for i in range(4)]:
+        ops += [f"open 3 0 0 {hx(nm)} 1", "read 3 200000", "close 3"]
+    ops += ["free 0 0"] + epilogue()
+    return ops
